@@ -5,6 +5,6 @@ N=$1; D=/tmp/vw/$N
 mkdir -p /tmp/vw
 git -C /verif worktree add -q -b "$N" "$D" HEAD
 mkdir -p "$D/harness" "$D/lean"
-cp -r /verif/harness/target "$D/harness/target"
-cp -r /verif/lean/.lake "$D/lean/.lake"
+cp -a /verif/harness/target "$D/harness/target"
+cp -a /verif/lean/.lake "$D/lean/.lake"
 echo "$D"
